@@ -64,6 +64,16 @@ func vp09BoolEq(a, b *bool) bool {
 // symbolic (the rest filler), wire 0/1, full 1 = payload length is the full upstream mtu minus plen.
 func VP_C09_Request() {
 	domain := vp09Domains[vp.Param("domain")]
+	if dl := vp.Param("domainlen"); dl > 0 { // a syntactically valid tunnel domain of exactly dl characters
+		b := make([]byte, dl)
+		for i := range b {
+			b[i] = byte('a' + i%26)
+			if i%21 == 20 && i != dl-1 {
+				b[i] = '.'
+			}
+		}
+		domain = string(b)
+	}
 	codec := vp09Upstream(vp.Param("codec"))
 	qt := util.QueryTypeNull
 	ser := commands.Serializer{Domain: domain, Upstream: util.UpstreamConfig{Encoder: codec, QueryType: &qt}, Downstream: util.DownstreamConfig{Encoder: enc.Base32Encoding}}
